@@ -2,6 +2,7 @@
    Pinned statements only. *)
 From Coq Require Import String List NArith ZArith Bool.
 From Sylt Require Import Syntax.Resolved Back.IR Back.Emit Back.Scope Back.RScope Back.ScopeProofs.
+From Sylt Require Lua.LuaAst Lua.LuaMap Lua.LuaCore Lua.LuaProofs.
 Import ListNotations.
 
 (* For every resolved program (any fuel) that is lexically scoped at the level of the resolved AST
@@ -16,6 +17,16 @@ Import ListNotations.
 Theorem C10_lower_scoped : forall (fuel : nat) (r : resolved) (code : list ir),
   rs_resolved fuel r = true -> lower fuel r = Ok code -> ir_scoped code = true.
 Proof. exact lower_scoped. Qed.
+
+(* The dynamic half rests on the Lua semantics: in the interpreter model every successful execution of a
+   `local x1..xk = es` statement binds each xi to a cell that was NOT allocated before the statement
+   (and the store only grows), so every activation of a function and every iteration of a loop gets
+   its own variables and temporaries, and closures created afterwards capture those cells. *)
+Theorem C10_local_fresh : forall n e xs es st e' sg st',
+  LuaCore.exec n e (LuaAst.SLocal xs es) st = LuaCore.ROk (e', sg) st' ->
+  sg = LuaCore.SigNormal /\ LuaProofs.st_le st st' /\
+  forall x, In x xs -> exists c, LuaMap.sget x e' = Some c /\ ~ LuaProofs.allocated st c /\ LuaProofs.allocated st' c.
+Proof. exact LuaProofs.local_fresh. Qed.
 
 (* Non-vacuity of the checker: a chunk whose if-expression result is assigned without having been
    introduced is rejected, the same chunk with the introduction is accepted. *)
@@ -49,3 +60,4 @@ Example C10_example_hypotheses :
 Proof. split; [vm_compute; reflexivity|eexists; vm_compute; reflexivity]. Qed.
 
 Print Assumptions C10_lower_scoped.
+Print Assumptions C10_local_fresh.
